@@ -1,6 +1,7 @@
 import SakuraVerif.Lemmas.Core
 import SakuraVerif.Lemmas.ExecInv
 import SakuraVerif.Lemmas.ExecFrame
+import SakuraVerif.Lemmas.ExecLocal
 /-! # C12 (T0) — tracks are independent; TrackSync and PLAY align them as documented
 
 On `Spec.Core.sem`: selecting a track materialises every missing track with **its own** default
@@ -142,11 +143,36 @@ theorem C12_blocks_commute (F D : Nat) (A B : List Lx.Tok) (hA : ∀ x ∈ A, Ex
       ∀ i, r1.tracks[i]? = if i = a then sA.tracks[a]? else if i = b then sB.tracks[b]? else s.tracks[i]? :=
   Ex2.blocks_commute F D A B hA hB s a b hab ha hb sA sB eA eB gA gB
 
+/-- **…without a semantic premise for blocks of track-local commands**: blocks that consist of notes, numbered notes, rests, `l o v q t`
+    and their relative forms, channel, voice, controllers, pitch bend, track key, slur mode, and `Sub{…}`, tuplets and loops of these
+    (`Ex2.Local`: a condition on token kinds, at any depth) — run on two different existing tracks whose Random settings are off, from a
+    state outside a chord with no pending octave-once mark (`Ex2.Quiet`), both staying inside the modelled subset — give the same
+    tracks in either order -/
+theorem C12_local_blocks_commute (F D : Nat) (A B : List Lx.Tok) (hA : ∀ x ∈ A, Ex2.Local x) (hB : ∀ x ∈ B, Ex2.Local x)
+    (s : Ex2.Song) (a b : Nat) (hab : a ≠ b) (qa : Ex2.Quiet (Ex2.onTrack s a)) (qb : Ex2.Quiet (Ex2.onTrack s b))
+    (sA sB : Ex2.Song) (eA : Ex2.exec F D A (Ex2.onTrack s a) = some sA) (eB : Ex2.exec F D B (Ex2.onTrack s b) = some sB)
+    (bA : sA.bad = s.bad) (bB : sB.bad = s.bad) :
+    ∃ r1 r2, Ex2.exec F D B (Ex2.onTrack sA b) = some r1 ∧ Ex2.exec F D A (Ex2.onTrack sB a) = some r2 ∧ r1.tracks = r2.tracks ∧
+      Ex2.SameGlobals s r1 ∧ Ex2.SameGlobals s r2 ∧
+      ∀ i, r1.tracks[i]? = if i = a then sA.tracks[a]? else if i = b then sB.tracks[b]? else s.tracks[i]? :=
+  Ex2.local_blocks_commute F D A B hA hB s a b hab qa qb sA sB eA eB bA bB
+
+/-- a track-local block keeps the song-level settings and the quiet state (what makes the premise of `C12_blocks_commute` true) -/
+theorem C12_local_keeps_settings (F D : Nat) (toks : List Lx.Tok) (h : ∀ x ∈ toks, Ex2.Local x) (s s' : Ex2.Song)
+    (he : Ex2.exec F D toks s = some s') (hq : Ex2.Quiet s) : Ex2.glob s' = Ex2.glob s ∧ Ex2.Quiet s' :=
+  Ex2.exec_keeps F D toks h s s' he hq
+
 -- non-vacuity for `C12_blocks_commute`: three tracks, an octave step on track 1 and a velocity on track 2 — both runs end and keep the settings
 def demoSong3 : Ex2.Song := { tracks := [Ex2.Trk.new 96 0, Ex2.Trk.new 96 0, Ex2.Trk.new 96 1] }
 example : ∃ sA sB, Ex2.exec 5 1 [Lx.tok .octaveRel 1 []] (Ex2.onTrack demoSong3 1) = some sA ∧
     Ex2.exec 5 1 [Lx.tok .qlen 50 []] (Ex2.onTrack demoSong3 2) = some sB ∧ Ex2.SameGlobals demoSong3 sA ∧ Ex2.SameGlobals demoSong3 sB :=
   ⟨_, _, rfl, rfl, rfl, rfl⟩
+
+-- non-vacuity for `C12_local_blocks_commute`: the demo song is quiet on tracks 1 and 2, the two demo tokens are track-local
+example : Ex2.Quiet (Ex2.onTrack demoSong3 1) ∧ Ex2.Quiet (Ex2.onTrack demoSong3 2) := by
+  constructor <;> (unfold Ex2.Quiet; decide)
+example : Ex2.Local (Lx.tok .octaveRel 1 []) ∧ Ex2.Local (Lx.tok .qlen 50 []) :=
+  ⟨.mk _ _ _ _ _ _ rfl (fun _ h => by cases h), .mk _ _ _ _ _ _ rfl (fun _ h => by cases h)⟩
 
 -- non-vacuity: a state with three tracks, the second selected; a run of note / Sub tokens changes only that track
 example : Ex2.NoTrack (Lx.tok .octaveRel 1 []) := .mk _ _ _ _ _ _ (by decide) (by decide) (fun _ h => by cases h)
